@@ -22,7 +22,9 @@ from props import schema_common as sc
 
 MANIFEST = {
     "text": "Coq theorems over the schema-interpreter model (all inputs, all fuels): re-cleaning an encoded value is the "
-            "identity per property kind, hence parse(encode o) = o and encode(parse(encode o)) = encode o as ordered members; "
+            "identity per property kind (clean_encode_idem), hence the constructor returns the same object from the object's own "
+            "encoding and re-encoding gives the same ordered members (roundtrip_equal_partial / reserialize_identical_partial: "
+            "110 of the 123 generated classes, plain JSON input; the class list is recomputed by the kernel each run); "
             "the two encoders differ exactly on defaulted optionals; sort_keys/indent/compact/pretty are permutations of "
             "members (same JSON value); pretty keeps the top-level class order. Model tied to /repo by regenerated class "
             "tables and a correspondence run of serialize under every option; the property itself is evaluated on the real "
@@ -326,6 +328,17 @@ def check(run):
     model_ok = sc.translate_and_build(run, "Props/C01.v")
     variants = sc.detect_variants(run)
     SORTED_EXT_ORDER[0] = probe_ext_order()
+    if model_ok:
+        # which classes of the regenerated tables the round-trip theorems cover (kernel-evaluated)
+        try:
+            hdr = ("From Coq Require Import List String.\nFrom V Require Import Base.UString Model.SchemaTypes "
+                   "Proofs.C01LibInstance Gen.Tables.\nImport ListNotations. Open Scope string_scope.\n"
+                   "Definition names (l : list ustring) : string := fold_right (fun x acc => append (show_ustr x) (append \" \" acc)) \"\" l.\n")
+            cov = common.coq_eval_lines("c01cov", hdr, ["names lib_proved_ids", "names lib_unproved_ids"])
+            run.coverage["roundtrip_theorem_classes_proved"] = len(cov[0].split())
+            run.coverage["roundtrip_theorem_classes_unproved"] = cov[1].split()
+        except RuntimeError as e:
+            run.notes.append("could not evaluate lib_proved_ids: %s" % str(e)[-300:])
     run.coverage["extension_property_order_sorted"] = SORTED_EXT_ORDER[0]
     cases = FIXED_CASES + gen_cases(run, per_class)
     results = common.run_impl("c01_impl", cases)
